@@ -14,6 +14,7 @@ from __future__ import annotations
 import ast
 import concurrent.futures as cf
 import json
+import re
 import os
 import shutil
 import subprocess
@@ -55,7 +56,7 @@ def run_variant(prop, v, repo="/repo"):
         r = subprocess.run([os.path.join(VERIF, "check"), prop, "--repo", tmp, "--tier", "quick"],
                            capture_output=True, text=True, timeout=600)
         out = r.stdout + r.stderr
-        viol = [l for l in out.splitlines() if l.startswith("  ") and any(t in l for t in ("[R", "[T", "[O", "[E"))]
+        viol = [l for l in out.splitlines() if l.startswith("  ") and re.search(r"\[[A-Z]\w*\]", l)]
         if v["kind"] == "mutant":
             ok = r.returncode == 1 and (not v.get("expect") or any(v["expect"] in l for l in viol))
             status = "killed" if ok else ("analysis-error" if r.returncode == 2 else "survived")
